@@ -48,4 +48,25 @@ theorem keep_nothing_selects_nothing (indices : List Nat) : GenRs.mutate_pass_li
   intro i hi
   have := (mutate_pass_list_keep indices [] i).mp hi
   exact absurd this.2 List.not_mem_nil
+/-! ### `TriangleFilter::facing`: the per-face predicate (regenerated; `n` is the angle between the face normal and
+the given direction when the face has a normal — `Vector::angle` depends on the DIRECTION of its arguments only, which
+is why the fragment takes the angle, not the vectors) -/
+
+/-- a face passes exactly when it has a normal and the angle between that normal and the direction is strictly below the
+    limit: a face without a normal never passes, and the verdict is a function of that ANGLE alone (so it cannot depend
+    on the length of the direction vector the caller gives) -/
+theorem facing_iff (n : Option ℝ) (limit : ℝ) :
+    GenRs.facing_predicate n limit = true ↔ ∃ a, n = some a ∧ a < limit := by
+  unfold GenRs.facing_predicate
+  cases n with
+  | none => simp
+  | some a => simp
+
+/-- a wider limit never loses a face -/
+theorem facing_monotone (n : Option ℝ) {l l' : ℝ} (h : l ≤ l') (hp : GenRs.facing_predicate n l = true) :
+    GenRs.facing_predicate n l' = true := by
+  rw [facing_iff] at hp ⊢
+  obtain ⟨a, e, ha⟩ := hp
+  exact ⟨a, e, lt_of_lt_of_le ha h⟩
+
 end C14U
